@@ -6,7 +6,7 @@ cd "$(dirname "$0")/.."
 N=$PWD/.build/native
 PYLIB=$(/venv/bin/python -c "import sysconfig; print(sysconfig.get_config_var('LIBDIR'))")
 T=$(mktemp -d -p .build)
-for t in dispatcher_loops critical_sections; do
+for t in dispatcher_loops critical_sections overlapping_writes; do
   gcc -O2 -fopenmp -c sim/native/tests/$t.c -o $T/$t.o
   gcc $T/$t.o -L$N -lsimrt -Wl,-rpath,$N -L$PYLIB -lpython3.12 -Wl,-rpath,$PYLIB -o $T/$t
   echo "== $t"; $T/$t
